@@ -10,13 +10,19 @@ From GPA Require Import Sched SignRace SignRaceProofs.
 
 Notation run := (@Sched.run world amsg areply loc handle).
 
+(* ---- the call sites as they are in /repo now (the main model, [route_reads]) -------------- *)
+(* They are the two-accessor programs: the secret and the id come from two actor round trips. *)
+Theorem C10_current_code_is_two_read : forall r, route_reads r = two_read_route r.
+Proof. reflexivity. Qed.
+Print Assumptions C10_current_code_is_two_read.
+
 (* ---- finding F5: with the two-accessor call sites the full statement is FALSE ------------- *)
-(* The full statement, for the call sites as they are in /repo now ([route_reads]), fails: there
-   are a MAC function, a keeper behaviour and a schedule in which a signer emits a header whose
-   id and MAC belong to no single key that was ever set. *)
+(* The full statement fails for the two-accessor call sites: there are a MAC function, a keeper
+   behaviour and a schedule in which a signer emits a header whose id and MAC belong to no single
+   key that was ever set. *)
 Theorem C10_pairing_refuted :
   exists (M : Type) (mac : bytes -> bytes -> M) k0 ops r sched l input g m,
-    let c := run (init (w_init k0) [keeper ops; signer0 (route_reads r)]) sched in
+    let c := run (init (w_init k0) [keeper ops; signer0 (two_read_route r)]) sched in
     result_of c 1%nat = Some l /\ header mac input l = Some (g, m) /\
     ~ exists k, In (Some k) (k0 :: set_args (trace c)) /\ guid k = g /\ m = mac (value k) input.
 Proof. exact torn_read_mac. Qed.
@@ -25,7 +31,7 @@ Print Assumptions C10_pairing_refuted.
 (* the witness on the proxied route: secret of k1 -- SetKey k2 -- id of k2; it lies in the known
    class (KnownClass_C10 = [setkey_between_reads]) and violates the pairing *)
 Theorem C10_torn_read_refuted :
-  let c := run (init (w_init (Some k1)) [keeper [Some k2]; signer0 (route_reads ProxiedRequest)]) ([1; 0; 1]%nat) in
+  let c := run (init (w_init (Some k1)) [keeper [Some k2]; signer0 (two_read_route ProxiedRequest)]) ([1; 0; 1]%nat) in
   exists l, result_of c 1%nat = Some l /\ hdr l = Some (guid k2, value k1) /\
             setkey_between_reads l = true /\ ~ paired (cur (shared c) :: past (shared c)) l.
 Proof. exact torn_read_proxied. Qed.
@@ -33,7 +39,7 @@ Print Assumptions C10_torn_read_refuted.
 
 (* the witness on the host-client routes (id first): id of k1 -- SetKey k2 -- secret of k2 *)
 Theorem C10_torn_read_host_refuted :
-  let c := run (init (w_init (Some k1)) [keeper [Some k2]; signer0 (route_reads WsGoalState)]) ([1; 0; 1]%nat) in
+  let c := run (init (w_init (Some k1)) [keeper [Some k2]; signer0 (two_read_route WsGoalState)]) ([1; 0; 1]%nat) in
   exists l, result_of c 1%nat = Some l /\ hdr l = Some (guid k1, value k2) /\
             setkey_between_reads l = true /\ ~ paired (cur (shared c) :: past (shared c)) l.
 Proof. exact torn_read_host. Qed.
